@@ -9,7 +9,10 @@ THEOREMS = ['FlexVerif.validate_sound', 'FlexVerif.match_conserves', 'FlexVerif.
 NEXTBUF_THEOREMS = ['FlexVerif.C03NextBuf.' + t for t in (
     'nextBuf_shape', 'moveFrom_get', 'moveFrom_eq', 'mv_loop', 'gr_loop', 'rdTail_run', 'fin_run', 'prefix_run', 'marks',
     'nextBuf_nofill', 'nextBuf_eof_pending', 'nextBuf_read', 'nextBuf_overflow', 'never_out_of_bounds',
-    'eof_only_when_reader_dry', 'delivered_is_scanned')]
+    'eof_only_when_reader_dry', 'delivered_is_scanned', 'rest_read', 'rest_eof_pending', 'rest_overflow', 'nextBuf_correct')]
+NEXTBUF_THEOREMS += ['FlexVerif.C03NextBufC99.' + t for t in (
+    'nextBuf99_shape', 'prefix99_run', 'moved99_like', 'nextBuf99_nofill', 'nextBuf99_eof_pending', 'nextBuf99_read',
+    'nextBuf99_overflow', 'nextBuf99_correct', 'never_out_of_bounds_c99', 'eof_only_when_reader_dry_c99')]
 
 
 def regen_nextbuf():
@@ -19,15 +22,19 @@ def regen_nextbuf():
     flex, src = flexrun.build_flex()
     try:
         body, info = gen_nextbuf.generate(flex, flexrun.scratch_root())
+        body99, info99 = gen_nextbuf.generate_c99(flex, flexrun.scratch_root())
     except gen_nextbuf.TranslateError as e:
         return None, str(e)
-    path = os.path.join(common.LEAN_DIR, 'FlexVerif', 'Gen', 'NextBuf.lean')
+    info = dict(info or {}); info['c99'] = info99
+    files = [(os.path.join(common.LEAN_DIR, 'FlexVerif', 'Gen', 'NextBuf.lean'), body),
+             (os.path.join(common.LEAN_DIR, 'FlexVerif', 'Gen', 'NextBufC99.lean'), body99)]
     lock = open(os.path.join(common.LEAN_DIR, '.build.lock'), 'w')
     fcntl.flock(lock, fcntl.LOCK_EX)
     try:
-        old = open(path).read() if os.path.exists(path) else ''
-        if old != body:
-            open(path, 'w').write(body)
+        for path, text in files:
+            old = open(path).read() if os.path.exists(path) else ''
+            if old != text:
+                open(path, 'w').write(text)
     finally:
         fcntl.flock(lock, fcntl.LOCK_UN)
         lock.close()
